@@ -72,7 +72,7 @@ TARGETS = {
             "trivialFit_delete_applies", "delete_applies_flat", "delete_never_raises_flat",
             "delete_applies", "delete_never_raises", "deleteRange_applies", "deleteRange_never_raises",
             "replaceRange_delete_applies", "trivialFit_replace_applies", "replace_never_raises_flat",
-            "insertInline_never_raises_flat"],
+            "insertInline_never_raises_flat", "replace_applies_direct", "insertInline_never_raises_direct_partial"],
     "C12": ["canJoin_join_applies", "liftTarget_lift_applies_flat", "liftTarget_lift_applies", "insertPoint_insert_applies",
             "dropPoint_drop_applies_closed", "joinPoint_join_applies", "insertPoint_insert_text_applies",
             "insertPoint_insert_marked_top"],
